@@ -1,6 +1,6 @@
 (* C10 — Arena bookkeeping and reported statistics are always coherent. *)
 From Coq Require Import ZArith List.
-From BS Require Import Word BumpSpec ChunkSpec Arena ArenaInv ArenaStats ArenaExt ArenaInv2 ArenaSizes ArenaHeader.
+From BS Require Import Word BumpSpec ChunkSpec Arena ArenaInv ArenaStats ArenaExt ArenaInv2 ArenaSizes ArenaHeader ArenaAny.
 Import ListNotations.
 Open Scope Z_scope.
 
@@ -65,6 +65,32 @@ Theorem C10_live_block_misses_every_header :
   disjoint_rng (bptr b) (bsize b) (header_start c ch) (hs c).
 Proof. exact live_block_misses_every_header. Qed.
 
+(* "The type-erased statistics report the same numbers and ranges as the typed statistics": an AnyChunk computes
+   everything from the header address, the header's end and pos fields and the header size it was given; with the
+   header size of the allocator the chunk came from that is exactly the typed view (ArenaAny.v); with the 32 bytes
+   the pinned commit assumed for every allocator it is not (defect 2, computed witness) *)
+Theorem C10_any_view_is_the_typed_view :
+  forall c, cfg_ok c -> forall ch, chunk_geom c ch ->
+  let x := header_of c ch in
+  any_chunk_start x = cbase ch /\ any_chunk_end (hs c) x = cbase ch + csize ch /\
+  any_content_start (hs c) x = content_start c ch /\ any_content_end (hs c) x = content_end c ch /\
+  any_size (hs c) x = csize ch /\ any_capacity (hs c) x = capacity c ch /\
+  any_allocated (hs c) x = allocated_in c ch /\ any_remaining (hs c) x = remaining_in c ch /\
+  h_pos x = cpos ch.
+Proof. exact any_view_is_the_typed_view. Qed.
+
+Theorem C10_any_direction_is_the_typed_one :
+  forall c, cfg_ok c -> forall ch, chunk_geom c ch -> any_up (header_of c ch) = up c.
+Proof. exact any_direction_is_the_typed_one. Qed.
+
+Theorem C10_any_view_pinned_refuted :
+  let c := mkCfg true false true true 512 48 16 true in
+  let ch := mkChunk 65536 512 512 512 (65536 + 48 + 4) in
+  any_capacity (hs c) (header_of c ch) = capacity c ch /\
+  any_capacity 32 (header_of c ch) <> capacity c ch /\
+  any_allocated 32 (header_of c ch) = 20 /\ allocated_in c ch = 4.
+Proof. exact any_view_pinned_refuted. Qed.
+
 Print Assumptions C10_stats_identities.
 Print Assumptions C10_reachable.
 Print Assumptions C10_chunks_strictly_grow.
@@ -74,3 +100,6 @@ Print Assumptions C10_dummy_reports_zero.
 Print Assumptions C10_reachable_partial.
 Print Assumptions C10_header_inside_granted_block.
 Print Assumptions C10_live_block_misses_every_header.
+Print Assumptions C10_any_view_is_the_typed_view.
+Print Assumptions C10_any_direction_is_the_typed_one.
+Print Assumptions C10_any_view_pinned_refuted.
